@@ -122,87 +122,204 @@ func TestBounded_C12(t *testing.T) {
 		if err != nil {
 			continue
 		}
-		for _, c := range bCallsFor(model, other, univ) {
-			for _, fault := range []string{"load", "compare", "layer"} {
-				for n := 1; n <= 40; n++ {
-					// a freshly loaded tree (no cache): every node access goes to the store
-					m, err := root.LoadMast(bctx, bCfg(st, nil))
-					if err != nil {
-						break
-					}
-					o2, _ := other.Clone(bctx)
-					_ = o2
-					sizeBefore, heightBefore := m.Size(), m.Height()
-					count := 0
-					fail := true
-					switch fault {
-					case "load":
+		for variant := 0; variant < 2; variant++ {
+			// variant 1: part of the tree is made private first (two updates), as a live tree
+			// between two persists would have it
+			model := model
+			var touched []int
+			if variant == 1 {
+				model = bCopyModel(model)
+				ks := bModelKeys(model)
+				touched = []int{ks[r.intn(len(ks))], ks[r.intn(len(ks))]}
+				for _, kk := range touched {
+					model[kk] += 10
+				}
+			}
+			for _, c := range bCallsFor(model, other, univ) {
+				for _, fault := range []string{"load", "compare", "layer"} {
+					for n := 1; n <= 40; n++ {
+						// a freshly loaded tree (no cache): every node access goes to the store
+						m, err := root.LoadMast(bctx, bCfg(st, nil))
+						if err != nil {
+							break
+						}
+						for _, kk := range touched {
+							m.Insert(bctx, kk, model[kk])
+						}
+						sizeBefore, heightBefore := m.Size(), m.Height()
+						count := 0
+						fail := true
+						switch fault {
+						case "load":
+							st.reset()
+							st.failLoad = n
+						case "compare":
+							inner := m.keyOrder
+							m.keyOrder = func(a, b interface{}) (int, error) {
+								count++
+								if fail && count == n {
+									return 0, errInjected
+								}
+								return inner(a, b)
+							}
+						case "layer":
+							inner := m.keyLayer
+							m.keyLayer = func(k interface{}, bf uint) (uint8, error) {
+								count++
+								if fail && count == n {
+									return 0, errInjected
+								}
+								return inner(k, bf)
+							}
+						}
+						var callErr error
+						panicked := bSafely(func() string { callErr = c.run(m); return "" })
 						st.reset()
-						st.failLoad = n
-					case "compare":
-						inner := m.keyOrder
-						m.keyOrder = func(a, b interface{}) (int, error) {
-							count++
-							if fail && count == n {
-								return 0, errInjected
-							}
-							return inner(a, b)
+						fail = false
+						cases++
+						desc := fmt.Sprintf("seed=%d bf=%d nf=%s contents %s\ncall %s with the %d-th %s failing", seed, bf, nf, bModelString(model), c.name, n, map[string]string{"load": "store Load", "compare": "key comparison", "layer": "layer callback"}[fault])
+						if panicked != "" {
+							bViolation(t, "C12", "panic-"+callWord(c.name)+"-"+fault, "%s\n%s", desc, panicked)
+							break
 						}
-					case "layer":
-						inner := m.keyLayer
-						m.keyLayer = func(k interface{}, bf uint) (uint8, error) {
-							count++
-							if fail && count == n {
-								return 0, errInjected
-							}
-							return inner(k, bf)
+						if callErr == nil {
+							break // the fault was not reached: the call needs fewer than n such steps
 						}
-					}
-					var callErr error
-					panicked := bSafely(func() string { callErr = c.run(m); return "" })
-					st.reset()
-					fail = false
-					cases++
-					desc := fmt.Sprintf("seed=%d bf=%d nf=%s contents %s\ncall %s with the %d-th %s failing", seed, bf, nf, bModelString(model), c.name, n, map[string]string{"load": "store Load", "compare": "key comparison", "layer": "layer callback"}[fault])
-					if panicked != "" {
-						bViolation(t, "C12", "panic-"+callWord(c.name)+"-"+fault, "%s\n%s", desc, panicked)
-						break
-					}
-					if callErr == nil {
-						break // the fault was not reached: the call needs fewer than n such steps
-					}
-					if !errors.Is(callErr, errInjected) && !strings.Contains(callErr.Error(), errInjected.Error()) {
-						// some other error: not the injected one
-						bViolation(t, "C12", "other-error-"+callWord(c.name), "%s\nreturned an error that is not the injected fault: %v", desc, callErr)
-						break
-					}
-					sig := "not-atomic-" + callWord(c.name) + "-" + errWord(callErr)
-					if m.Size() != sizeBefore || m.Height() != heightBefore {
-						bViolation(t, "C12", sig, "%s\nreturned %q but size/height changed from %d/%d to %d/%d", desc, callErr, sizeBefore, heightBefore, m.Size(), m.Height())
-						continue
-					}
-					if msg := bCompare(m, model, univ); msg != "" {
-						bViolation(t, "C12", sig, "%s\nreturned %q and the tree is no longer what it was: %s", desc, callErr, msg)
-						continue
-					}
-					// the same call succeeds with the normal result once the fault has cleared
-					var retryErr error
-					if p := bSafely(func() string { retryErr = c.run(m); return "" }); p != "" || retryErr != nil {
-						bViolation(t, "C12", "retry-fails-"+callWord(c.name), "%s\nreturned %q; the retry after the fault cleared gives %v %s", desc, callErr, retryErr, p)
-						continue
-					}
-					m2 := bCopyModel(model)
-					if c.after != nil {
-						c.after(m2)
-					}
-					if msg := bCompare(m, m2, univ); msg != "" {
-						bViolation(t, "C12", "retry-wrong-"+callWord(c.name), "%s\nreturned %q; after the successful retry: %s", desc, callErr, msg)
+						if !errors.Is(callErr, errInjected) && !strings.Contains(callErr.Error(), errInjected.Error()) {
+							// some other error: not the injected one
+							bViolation(t, "C12", "other-error-"+callWord(c.name), "%s\nreturned an error that is not the injected fault: %v", desc, callErr)
+							break
+						}
+						sig := "not-atomic-" + callWord(c.name) + "-" + errWord(callErr)
+						if m.Size() != sizeBefore || m.Height() != heightBefore {
+							bViolation(t, "C12", sig, "%s\nreturned %q but size/height changed from %d/%d to %d/%d", desc, callErr, sizeBefore, heightBefore, m.Size(), m.Height())
+							continue
+						}
+						if msg := bCompare(m, model, univ); msg != "" {
+							bViolation(t, "C12", sig, "%s\nreturned %q and the tree is no longer what it was: %s", desc, callErr, msg)
+							continue
+						}
+						// the same call succeeds with the normal result once the fault has cleared
+						var retryErr error
+						if p := bSafely(func() string { retryErr = c.run(m); return "" }); p != "" || retryErr != nil {
+							bViolation(t, "C12", "retry-fails-"+callWord(c.name), "%s\nreturned %q; the retry after the fault cleared gives %v %s", desc, callErr, retryErr, p)
+							continue
+						}
+						m2 := bCopyModel(model)
+						if c.after != nil {
+							c.after(m2)
+						}
+						if msg := bCompare(m, m2, univ); msg != "" {
+							bViolation(t, "C12", "retry-wrong-"+callWord(c.name), "%s\nreturned %q; after the successful retry: %s", desc, callErr, msg)
+						}
 					}
 				}
 			}
 		}
 	}
 	bStat("C12.fault_cases", cases)
+	bCursorFaults(t)
+}
+
+// bCursorFaults: a navigation step that fails on a store fault leaves the cursor where it was:
+// the same step, retried after the fault has cleared, continues the walk as if nothing happened.
+func bCursorFaults(t *testing.T) {
+	steps := 0
+	seeds := 6
+	if bTier() == "thorough" {
+		seeds = 40
+	}
+	for seed := 1; seed <= seeds; seed++ {
+		r := &bRand{uint64(seed)*0x9E6C63D0876A9A47 + 3}
+		bf := uint(2 + r.intn(3))
+		st := newBStore("mem://cursor-faults")
+		model := map[int]int{}
+		for i, n := 0, 5+r.intn(20); i < n; i++ {
+			model[r.intn(40)] = r.intn(3)
+		}
+		base, err := bBuild(bf, bFormats[r.intn(2)], st, model, 0, false)
+		if err != nil {
+			continue
+		}
+		root, err := base.MakeRoot(bctx)
+		if err != nil {
+			continue
+		}
+		ks := bModelKeys(model)
+		for _, forward := range []bool{true, false} {
+			want := append([]int(nil), ks...)
+			if !forward {
+				for i, j := 0, len(want)-1; i < j; i, j = i+1, j-1 {
+					want[i], want[j] = want[j], want[i]
+				}
+			}
+			for at := 0; at < len(ks); at++ {
+				m, err := root.LoadMast(bctx, bCfg(st, nil))
+				if err != nil {
+					break
+				}
+				var got []int
+				var failedWith error
+				msg := bSafely(func() string {
+					c, err := m.Cursor(bctx)
+					if err != nil {
+						return "Cursor: " + err.Error()
+					}
+					if forward {
+						err = c.Min(bctx)
+					} else {
+						err = c.Max(bctx)
+					}
+					if err != nil {
+						return "place: " + err.Error()
+					}
+					for i := 0; i <= len(ks)+1; i++ {
+						k, _, ok := c.Get()
+						if !ok {
+							return ""
+						}
+						got = append(got, k.(int))
+						if i == at {
+							st.reset()
+							st.failLoad = 1
+						}
+						if forward {
+							err = c.Forward(bctx)
+						} else {
+							err = c.Backward(bctx)
+						}
+						st.reset()
+						if err != nil {
+							if failedWith != nil {
+								return "second failure: " + err.Error()
+							}
+							failedWith = err
+							// retry the same step, the fault has cleared
+							if forward {
+								err = c.Forward(bctx)
+							} else {
+								err = c.Backward(bctx)
+							}
+							if err != nil {
+								return "retry failed: " + err.Error()
+							}
+						}
+					}
+					return "walk does not end"
+				})
+				steps++
+				dir := map[bool]string{true: "Forward", false: "Backward"}[forward]
+				if msg != "" {
+					bViolation(t, "C12", "cursor-retry-"+dir, "seed=%d bf=%d contents %s\n%s walk, store Load failing during step %d: %s (visited %v)", seed, bf, bModelString(model), dir, at, msg, got)
+					continue
+				}
+				if failedWith != nil && fmt.Sprint(got) != fmt.Sprint(want) {
+					bViolation(t, "C12", "cursor-moved-on-error-"+dir, "seed=%d bf=%d contents %s\n%s step %d failed with %q; after retrying it the walk visited %v, expected %v", seed, bf, bModelString(model), dir, at, failedWith, got, want)
+				}
+			}
+		}
+	}
+	bStat("C12.cursor_fault_walks", steps)
 }
 
 // ---------------------------------------------------------------------------------------------
@@ -290,6 +407,19 @@ func TestBounded_C03(t *testing.T) {
 					bViolation(t, "C03", "incomplete-root-after-fault", "%s\nthe %d-th node write failed, MakeRoot returned %s but %s", cfg, n, bRootString(r1), msg)
 				}
 				continue
+			}
+			// a second tree with the same contents, same store and same cache, persisted without
+			// faults: nothing the failed attempt left in the cache may make it skip a node
+			if cache2 != nil {
+				m3, _ := bNewTree(bf, nf, st2, cache2)
+				for _, k := range bModelKeys(model) {
+					m3.Insert(bctx, k, model[k])
+				}
+				if r3, err3 := m3.MakeRoot(bctx); err3 != nil {
+					bViolation(t, "C03", "second-tree-fails", "%s\nafter another tree's MakeRoot failed at the %d-th write, a fresh tree with the same contents (same store, same cache) cannot be persisted: %v", cfg, n, err3)
+				} else if msg := bCheckComplete(r3, st2); msg != "" {
+					bViolation(t, "C03", "skipped-after-failed-write", "%s\nafter another tree's MakeRoot failed at the %d-th write, a fresh tree with the same contents (same store, same cache) was persisted as %s but %s", cfg, n, bRootString(r3), msg)
+				}
 			}
 			if msg := bCompare(m2, model, univ); msg != "" {
 				bViolation(t, "C03", "unusable-after-fault", "%s\nafter MakeRoot failed at the %d-th write the tree is not usable / changed: %s", cfg, n, msg)
